@@ -47,6 +47,16 @@ class Normalizer(ast.NodeTransformer):
             return ast.copy_location(ast.Compare(left=c.left, ops=[_INV[type(c.ops[0])]()], comparators=c.comparators), node)
         return node
 
+    def visit_Subscript(self, node):
+        self.generic_visit(node)
+        # {K1: v1, K2: v2}[K1] -> v1   (literal table, constant / enum-member key)
+        if isinstance(node.ctx, ast.Load) and isinstance(node.value, ast.Dict) and node.value.keys and all(k is not None for k in node.value.keys):
+            kd = lambda k: repr(k.value) if isinstance(k, ast.Constant) else f"{k.value.id}.{k.attr}" if isinstance(k, ast.Attribute) and isinstance(k.value, ast.Name) else None
+            want, keys = kd(node.slice), [kd(k) for k in node.value.keys]
+            if want is not None and all(k is not None for k in keys) and keys.count(want) == 1:
+                return node.value.values[keys.index(want)]
+        return node
+
     def visit_AugAssign(self, node):
         self.generic_visit(node)
         if isinstance(node.target, ast.Name):
@@ -74,14 +84,58 @@ class Normalizer(ast.NodeTransformer):
             return mk(ast.Or(), [neg(a), b])      # b if a else True
         return e
 
+    @staticmethod
+    def _expand_quantifier(node):
+        """all(P(x) for x in (a, b, c))  ->  P(a) and P(b) and P(c)   (any -> or): a literal, short sequence, in a test position"""
+        if isinstance(node, ast.Call) and isinstance(node.func, ast.Name) and node.func.id in ("all", "any") and len(node.args) == 1 and not node.keywords and isinstance(node.args[0], (ast.GeneratorExp, ast.ListComp)):
+            g = node.args[0]
+            if len(g.generators) == 1 and not g.generators[0].ifs and isinstance(g.generators[0].target, ast.Name) and isinstance(g.generators[0].iter, (ast.Tuple, ast.List)) and 1 <= len(g.generators[0].iter.elts) <= 8 and not any(isinstance(e, ast.Starred) for e in g.generators[0].iter.elts):
+                tgt = g.generators[0].target.id
+
+                class _S(ast.NodeTransformer):
+                    def __init__(s_, val):
+                        s_.val = val
+
+                    def visit_Name(s_, n):
+                        return copy.deepcopy(s_.val) if n.id == tgt and isinstance(n.ctx, ast.Load) else n
+
+                vals = [_S(e).visit(copy.deepcopy(g.elt)) for e in g.generators[0].iter.elts]
+                if len(vals) == 1:
+                    return vals[0]
+                return ast.copy_location(ast.BoolOp(op=ast.And() if node.func.id == "all" else ast.Or(), values=vals), node)
+        return node
+
     def _test(self, e):
         """canonicalise an expression in a position where only its truth value is observed"""
         e = self._bool_ternary(e)
+        e = self._expand_quantifier(e)
+        if isinstance(e, ast.Call) and isinstance(e.func, ast.Name) and e.func.id == "bool" and len(e.args) == 1 and not e.keywords:
+            return self._test(e.args[0])  # bool(X) where only the truth value is observed
         if isinstance(e, ast.BoolOp):
             e.values = [self._test(v) for v in e.values]
         elif isinstance(e, ast.UnaryOp) and isinstance(e.op, ast.Not):
             e.operand = self._test(e.operand)
+            if isinstance(e.operand, ast.UnaryOp) and isinstance(e.operand.op, ast.Not):
+                return e.operand.operand  # not not X, where only the truth value is observed
         return e
+
+    def visit_FunctionDef(self, node):
+        self.generic_visit(node)
+        # a function that ends in `if C: <block>` is the guard form `if not C: return ; <block>` (helpers inlined as statements leave
+        # the nested form behind; the pinned tree uses guards)
+        for _ in range(6):
+            last = node.body[-1] if node.body else None
+            if isinstance(last, ast.If) and not last.orelse and len(node.body) > 0 and not self._terminates(last.body) and sum(1 for b in last.body for _n in ast.walk(b)) > 12:
+                t, flipped = _strip_not(last.test)
+                test = t if flipped else ast.copy_location(ast.UnaryOp(op=ast.Not(), operand=last.test), last.test)
+                if isinstance(test, ast.UnaryOp) and isinstance(test.operand, ast.Compare) and len(test.operand.ops) == 1 and type(test.operand.ops[0]) in _INV:
+                    c = test.operand
+                    test = ast.copy_location(ast.Compare(left=c.left, ops=[_INV[type(c.ops[0])]()], comparators=c.comparators), c)
+                guard = ast.copy_location(ast.If(test=test, body=[ast.copy_location(ast.Return(value=None), last)], orelse=[]), last)
+                node.body = node.body[:-1] + [guard] + last.body
+            else:
+                break
+        return node
 
     def visit_For(self, node):
         self.generic_visit(node)
@@ -280,9 +334,62 @@ class Normalizer(ast.NodeTransformer):
                     return [loop, mk(ast.Return(value=w(core.args[1])))]
         return None
 
+    @staticmethod
+    def _nullness(e):
+        """True: the expression is None; False: it cannot be None (a literal / a constructor call); None: unknown"""
+        if isinstance(e, ast.Constant):
+            return e.value is None
+        if isinstance(e, (ast.Dict, ast.List, ast.Tuple, ast.Set, ast.JoinedStr)):
+            return False
+        if isinstance(e, ast.Call) and isinstance(e.func, ast.Name) and e.func.id[:1].isupper() and not e.func.id.isupper():
+            return False  # ClassName(...)
+        return None
+
+    def _thread_nullness(self, stmts):
+        """if C: ..; x = None  else: ..; x = Cls(..)   [y = x]   if y is None: A [else: B]
+        the second test is decided in each arm of the first: it is moved into the arms (a value helper that returns None early,
+        inlined in front of the caller's `if result is None: return`, becomes the caller's guard again)"""
+        import copy as _c
+
+        out = list(stmts)
+        for _ in range(8):
+            hit = False
+            for i, st in enumerate(out):
+                if not (isinstance(st, ast.If) and st.body and st.orelse):
+                    continue
+                la, lb = st.body[-1], st.orelse[-1]
+                if not (isinstance(la, ast.Assign) and isinstance(lb, ast.Assign) and len(la.targets) == 1 and len(lb.targets) == 1 and isinstance(la.targets[0], ast.Name) and isinstance(lb.targets[0], ast.Name) and la.targets[0].id == lb.targets[0].id):
+                    continue
+                na, nb = self._nullness(la.value), self._nullness(lb.value)
+                if na is None or nb is None or na == nb:
+                    continue
+                names = {la.targets[0].id}
+                j = i + 1
+                copies = []
+                while j < len(out) and isinstance(out[j], ast.Assign) and len(out[j].targets) == 1 and isinstance(out[j].targets[0], ast.Name) and isinstance(out[j].value, ast.Name) and out[j].value.id in names:
+                    names.add(out[j].targets[0].id)
+                    copies.append(out[j])
+                    j += 1
+                if j >= len(out) or not isinstance(out[j], ast.If):
+                    continue
+                t = out[j].test
+                if not (isinstance(t, ast.Compare) and len(t.ops) == 1 and isinstance(t.ops[0], (ast.Is, ast.IsNot)) and isinstance(t.left, ast.Name) and t.left.id in names and isinstance(t.comparators[0], ast.Constant) and t.comparators[0].value is None):
+                    continue
+                when_none, when_some = (out[j].body, out[j].orelse) if isinstance(t.ops[0], ast.Is) else (out[j].orelse, out[j].body)
+                arm_none, arm_some = (st.body, st.orelse) if na else (st.orelse, st.body)
+                arm_none.extend(_c.deepcopy(copies) + _c.deepcopy(when_none))
+                arm_some.extend(_c.deepcopy(copies) + _c.deepcopy(when_some))
+                del out[i + 1 : j + 1]
+                hit = True
+                break
+            if not hit:
+                break
+        return out
+
     def _block(self, stmts):
         kept = [st for st in stmts if not self._is_diagnostic(st)]
         stmts = kept if kept else [ast.copy_location(ast.Pass(), stmts[0])] if stmts else stmts
+        stmts = self._thread_nullness(stmts)
         # r = (a, b) if c else (d, e) ; p, q = r    ->   p = a if c else d ; q = b if c else e
         dist = []
         i = 0
@@ -518,7 +625,131 @@ class _MatchLower(ast.NodeTransformer):
         return out or ast.copy_location(ast.Pass(), node)
 
 
+class _ConstFold(ast.NodeTransformer):
+    """boolean constants left behind by inlining a helper with a literal flag argument: `not True`, `False and X`, `True and X`,
+    `if False: A else: B`, `A if True else B`, `if C: pass else: B`"""
+
+    @staticmethod
+    def _k(e):
+        return isinstance(e, ast.Constant) and isinstance(e.value, bool)
+
+    def visit_UnaryOp(self, node):
+        self.generic_visit(node)
+        if isinstance(node.op, ast.Not) and self._k(node.operand):
+            return ast.copy_location(ast.Constant(value=not node.operand.value), node)
+        return node
+
+    def visit_BoolOp(self, node):
+        self.generic_visit(node)
+        absorbing = isinstance(node.op, ast.Or)  # `True or ..` / `False and ..` decide the result at that operand
+        vals = []
+        for i, v in enumerate(node.values):
+            if self._k(v):
+                if v.value is absorbing:
+                    vals.append(v)
+                    break  # operands after it are never evaluated
+                if i < len(node.values) - 1:
+                    continue  # neutral element that is not the result
+            vals.append(v)
+        if len(vals) == 1:
+            return vals[0]
+        node.values = vals
+        return node
+
+    def visit_IfExp(self, node):
+        self.generic_visit(node)
+        if self._k(node.test):
+            return node.body if node.test.value else node.orelse
+        return node
+
+    def visit_If(self, node):
+        self.generic_visit(node)
+        if self._k(node.test):
+            keep = node.body if node.test.value else node.orelse
+            return keep or ast.copy_location(ast.Pass(), node)
+        if node.orelse and all(isinstance(x, ast.Pass) for x in node.body):
+            return ast.copy_location(ast.If(test=ast.copy_location(ast.UnaryOp(op=ast.Not(), operand=node.test), node.test), body=node.orelse, orelse=[]), node)
+        return node
+
+
+def _copy_propagate(fn: ast.FunctionDef) -> bool:
+    """`a = b` between two local names that are each bound exactly once (b may be a parameter that is never re-bound): a is b
+    wherever a is defined, so a is renamed to b and the copy disappears (inlining a value helper leaves such copies behind)"""
+    if any(isinstance(n, (ast.Global, ast.Nonlocal)) for n in ast.walk(fn)):
+        return False
+    stores: dict = {}
+    for n in ast.walk(fn):
+        if isinstance(n, ast.Name) and isinstance(n.ctx, (ast.Store, ast.Del)):
+            stores[n.id] = stores.get(n.id, 0) + 1
+        elif isinstance(n, ast.arg):
+            stores[n.arg] = stores.get(n.arg, 0) + 1
+        elif isinstance(n, (ast.FunctionDef, ast.ClassDef)) and n is not fn:
+            stores[n.name] = stores.get(n.name, 0) + 2
+        elif isinstance(n, ast.ExceptHandler) and n.name:
+            stores[n.name] = stores.get(n.name, 0) + 2
+        elif isinstance(n, (ast.Import, ast.ImportFrom)):
+            for a in n.names:
+                stores[(a.asname or a.name).split(".")[0]] = 2
+    changed = False
+
+    def find(body_owner):
+        for f_ in ("body", "orelse", "finalbody"):
+            lst = getattr(body_owner, f_, None)
+            if not (isinstance(lst, list) and lst and isinstance(lst[0], ast.stmt)):
+                continue
+            for i, st in enumerate(lst):
+                if isinstance(st, ast.Assign) and len(st.targets) == 1 and isinstance(st.targets[0], ast.Name) and isinstance(st.value, ast.Name):
+                    a, b = st.targets[0].id, st.value.id
+                    if a != b and stores.get(a) == 1 and stores.get(b) == 1:
+                        return lst, i, a, b
+                if isinstance(st, ast.Assign) and len(st.targets) == 1 and isinstance(st.targets[0], ast.Name) and stores.get(st.targets[0].id) == 1 and body_owner is fn:
+                    v = st.value
+                    # a name bound once, at the top level of the function, to an enum member: the member itself
+                    if isinstance(v, ast.Attribute) and isinstance(v.value, ast.Name) and v.value.id[:1].isupper() and v.attr.isupper() and stores.get(v.value.id) is None:
+                        return lst, i, st.targets[0].id, v
+                if not isinstance(st, (ast.FunctionDef, ast.ClassDef)):
+                    r = find(st)
+                    if r:
+                        return r
+            for st in lst:
+                pass
+        for h in getattr(body_owner, "handlers", []) or []:
+            r = find(h)
+            if r:
+                return r
+        return None
+
+    for _ in range(20):
+        r = find(fn)
+        if not r:
+            break
+        lst, i, a, b = r
+        del lst[i]
+        if not lst:
+            lst.append(ast.Pass())
+        if isinstance(b, ast.AST):
+            class _S(ast.NodeTransformer):
+                def visit_Name(s_, n):
+                    return copy.deepcopy(b) if n.id == a and isinstance(n.ctx, ast.Load) else n
+
+            _S().visit(fn)
+            stores.pop(a, None)
+            changed = True
+            continue
+        for n in ast.walk(fn):
+            if isinstance(n, ast.Name) and n.id == a:
+                n.id = b
+        stores.pop(a, None)
+        changed = True
+    return changed
+
+
 def normalize(tree: ast.AST) -> ast.AST:
+    for fn_ in [n for n in ast.walk(tree) if isinstance(n, ast.FunctionDef)]:
+        _copy_propagate(fn_)
+    if any(isinstance(n, ast.Constant) and isinstance(n.value, bool) for n in ast.walk(tree)):
+        tree = _ConstFold().visit(tree)
+        ast.fix_missing_locations(tree)
     if any(isinstance(n, ast.Match) for n in ast.walk(tree)):
         tree = _MatchLower().visit(tree)
         ast.fix_missing_locations(tree)
